@@ -133,7 +133,9 @@ MinInstances == 5
 Count(law) == Cardinality({k \in 1..Len(Recs) : Recs[k].kind = "law" /\ Recs[k].law = law /\ Recs[k].pre})
 Triggered == {Recs[k].law : k \in {n \in 1..Len(Recs) : Recs[n].kind = "law"}}
 Crashed == \E k \in 1..Len(Recs) : Recs[k].kind = "law" /\ Recs[k].crash
-ASSUME Crashed \/ \A law \in Triggered : Count(law) >= MinInstances
+(* (the binding self-test hands over a small sample of deliberately falsified records: no instance counts there) *)
+SelfTest == "VERIF_SELFTEST" \in DOMAIN IOEnv
+ASSUME Crashed \/ SelfTest \/ \A law \in Triggered : Count(law) >= MinInstances
 
 Init == /\ i \in 1..Len(Recs)
         /\ why = Why(Recs[i])
